@@ -44,6 +44,9 @@ EXPLANATION += ' R3 evaluates the shell conversion with every true / false flag 
 # --- metadata added for batch 9
 EXPLANATION += " R2 / R4 rows added: single-label shells are compared like any other; a shell type missing from the basis's own conventions raises instead of falling back to another table."
 # --- end metadata batch 9
+# --- metadata added after the round-5 refactoring twins
+EXPLANATION += ' R5: the (reshaped) sign vector may be kept in a local whose every use is a multiplication.'
+# --- end metadata round-5 twins
 
 
 def run(ctx):
